@@ -14,7 +14,7 @@ int query_id() { return id; }
 int shb(int v) { set_heart_beat(v); return query_heart_beat(this_object()); }
 void die() { destruct(this_object()); }
 
-// ops: 1 self off; 2 other->shb(val); 3 destruct self; 4 destruct other; 5 clone /hb/t; 6 clone /hb/u; 7 error
+// ops: 8 self set_heart_beat(val); 9 reload_object(tgt) whose create() enables interval val; 1 self off; 2 other->shb(val); 3 destruct self; 4 destruct other; 5 clone /hb/t; 6 clone /hb/u; 7 error
 void run(int o, int t, int v) {
   object x;
   switch (o) {
@@ -24,6 +24,8 @@ void run(int o, int t, int v) {
     case 4: x = "/hb/log"->ob(t); if (x) { destruct(x); LOG(({ "op", id, "dest", t, 0 })); } else LOG(({ "op", id, "nop", t, v })); break;
     case 5: x = "/hb/log"->make("/hb/t", t, v); LOG(({ "op", id, "clone-t", t, v, objectp(x) })); break;
     case 6: x = "/hb/log"->make("/hb/u", t, v); LOG(({ "op", id, "clone-u", t, v, objectp(x) })); break;
+    case 8: set_heart_beat(v); LOG(({ "op", id, "shb", id, v })); break;                 // change the own interval from inside heart_beat
+    case 9: "/hb/log"->reload(id, t, v); break;                                          // reload_object(t) (t may be this object)
     case 7: LOG(({ "op", id, "err", id, 0 })); error("C11 heart_beat error\n"); break;
   }
 }
